@@ -259,8 +259,7 @@ def run(prog: Program, ctx: Ctx) -> None:  # noqa: PLR0912,PLR0915
         ctx.ob("R2", key(rt, f"tested-before-set:{flag}"), tested, f"`{flag}` is tested (raise when already set) before it is set", where(rt, s.stmt))
 
     # ------------------------------------------------------------------ R3 all-or-nothing
-    ctx.rule("R3", "_resolve_target stores the target only after the nested resolution of the looked-up alias returned normally; "
-                   "nothing but the back-reference registration follows the store")
+    ctx.rule("R3", "_resolve_target stores the target only after the nested resolution of the looked-up alias returned normally")
     rs = prog.function("_griffe.models.Alias._resolve_target")
     cfgs = cfg_of(rs)
     store_nodes = [n for n in cfgs.live_nodes() if n.kind == "stmt" and isinstance(n.stmt, ast.Assign)
@@ -295,11 +294,7 @@ def run(prog: Program, ctx: Ctx) -> None:  # noqa: PLR0912,PLR0915
                 r2 = cfgs.reach(exc_succ)
                 ctx.ob("R3", key(rs, "no-store-when-nested-fails"), st not in r2,
                        "when the nested resolution raises, the store is not executed (the chain stays unresolved)", where(rs, c))
-        after = cfgs.reach([b for b, lab in cfgs.succ[st] if lab != "exc"], normal_only=True)
-        extra = [n for n in after if n.kind in ("stmt", "return") and n.stmt is not None and not (
-            isinstance(n.stmt, ast.Assign) and any(isinstance(t, ast.Subscript) and isinstance(t.value, ast.Attribute) and t.value.attr == "aliases" for t in n.stmt.targets))]
-        ctx.ob("R3", key(rs, "only-registration-after-store"), not extra, "only the back-reference registration follows the store", where(rs, st.stmt),
-               {"extra": [norm(n.stmt) for n in extra]})
+        # (what may follow the store - the back-reference registration, which itself dereferences the rest of the chain - is decided on behaviour by R7)
 
     # ------------------------------------------------------------------ R4 error discipline
     ctx.rule("R4", "alias dereference raises only AliasResolutionError / CyclicAliasError (KeyError converted); Alias.kind / has_docstring(s) "
@@ -451,6 +446,57 @@ def run(prog: Program, ctx: Ctx) -> None:  # noqa: PLR0912,PLR0915
     memo_test = any(isinstance(n, ast.Compare) and isinstance(n.ops[0], ast.NotIn) and unparse(n.comparators[0]) == "load_failures" for n in ast.walk(rma.node))
     memo_add = any(isinstance(n, ast.Call) and unparse(n.func) == "load_failures.add" for n in ast.walk(rma.node))
     ctx.ob("R5", key(rma, "load-failures-memoised"), memo_test and memo_add, "a package that failed to load is not retried in later iterations", where(rma))
+
+    # ------------------------------------------------------------------ R7 every small alias graph, every resolution order
+    ctx.rule("R7", "on every alias graph over three names (four in the thorough tier) - real objects, imports of each other, of themselves or of "
+                   "something missing, aliases created already linked as wildcard expansion does - and every order of resolve_target() calls: "
+                   "only the two alias errors are raised, a call that returns leaves the whole chain resolved, a call that raises leaves the alias "
+                   "unresolved, a chain that reaches an object resolves, and resolving again changes nothing")
+    _graph_table(prog, ctx)
+
+
+def _graph_chunk(arg: tuple) -> tuple[int, list[tuple[str, str]]]:
+    from sa.tables.aliasgraphs import Table, fmt
+
+    overlay, work = arg
+    t = Table(Program(overlay=overlay or None))
+    found: list[tuple[str, str]] = []
+    for g, order in work:
+        r = t.run(g, order)
+        if r:
+            found.append((r, f"{fmt(g)}; resolved in the order {', '.join(f'x{i}' for i in order)}"))
+    return len(work), found
+
+
+def _graph_table(prog: Program, ctx: Ctx) -> None:
+    import itertools
+    import os
+    import re
+    from concurrent.futures import ProcessPoolExecutor
+
+    from sa.tables.aliasgraphs import graphs
+
+    thorough = ctx.tier == "thorough"
+    work = [(g, o) for g in graphs(3) for o in (itertools.permutations(range(3)) if thorough else ((0, 1, 2), (2, 1, 0)))]
+    if thorough:
+        work += [(g, o) for g in graphs(4) for o in ((0, 1, 2, 3), (3, 2, 1, 0))]
+    jobs = min(16 if thorough else 4, os.cpu_count() or 4)
+    with ProcessPoolExecutor(max_workers=jobs) as ex:
+        results = list(ex.map(_graph_chunk, [(dict(prog.overlay), work[i::jobs]) for i in range(jobs)]))
+    n = sum(r[0] for r in results)
+    rt = prog.function("_griffe.models.Alias.resolve_target")
+    reported: set[str] = set()
+    for _n, found in results:
+        for problem, graph in sorted(found, key=lambda x: (len(x[1]), x[1])):
+            cls_key = re.sub(r"x\d", "x", problem)[:120]
+            if cls_key in reported:
+                continue
+            reported.add(cls_key)
+            ctx.ob("R7", f"graph|{cls_key}", False, f"{problem} [{graph}]", where(rt))
+    ctx.ob("R7", f"graphs|{n} histories", True, f"{n} (graph, order) histories evaluated on Alias / ModulesCollection / set_member: all obligations hold", "", nontrivial=True)
+    if not reported:
+        ctx.expect_min("R7", n, 600)
+    ctx.analysed["alias_graph_histories"] = n
 
 
 def _edge_guarded(prog: Program, cg: CallGraph, e: Edge, cset: set[str], edges) -> tuple[bool, str]:  # noqa: PLR0911,PLR0912
